@@ -379,6 +379,38 @@ def cli_case(part, rng, root):
         shutil.rmtree(d, ignore_errors=True)
 
 
+def crowd_case(part, rng, root):
+    """(4) a calendar of hundreds to thousands of tasks through echse merge and echsq -n add: every UID comes out as written"""
+    env = dict(os.environ)
+    env.update(SAN_ENV)
+    n = rng.choice([300, 600, 700, 1100, 1500, 3000])
+    stem = "%x" % rng.getrandbits(32)
+    uids = ["%s-%d%s@verif" % (stem, i, rng.choice(["", ".job", "-" + "x" * rng.randint(1, 30)])) for i in range(n)]
+    evs = ["BEGIN:VEVENT\nUID:%s\nSUMMARY:true\nDTSTART:20%02d%02d%02dT%02d0000Z\nRRULE:FREQ=YEARLY\nEND:VEVENT"
+           % (u, rng.randint(40, 90), rng.randint(1, 12), rng.randint(1, 28), rng.randint(0, 23)) for u in uids]
+    data = ("BEGIN:VCALENDAR\nVERSION:2.0\n" + "\n".join(evs) + "\nEND:VCALENDAR\n").encode()
+    d = tempfile.mkdtemp(prefix="c05-")
+    try:
+        fn = os.path.join(d, "in.ics")
+        open(fn, "wb").write(data)
+        for tool, argv in (("echse-merge", [build.exe(root, "asan", "echse"), "merge", fn]), ("echsq-add", [build.exe(root, "asan", "echsq"), "-n", "add", fn])):
+            part.evaluations += 1
+            p = subprocess.run(argv, stdout=subprocess.PIPE, stderr=subprocess.PIPE, env=env, timeout=300, cwd=d)
+            got = [l[4:].strip() for l in p.stdout.decode("latin1").split("\n") if l.startswith("UID:")]
+            part.count("crowd_uids_compared", len(got))
+            lost = sorted(set(uids) - set(got))
+            new = sorted(set(got) - set(uids))
+            if lost or new or len(got) != len(uids):
+                part.violation("crowd/%s/uid" % tool, {"input": "calendar of %d yearly tasks, UIDs %s-<i>...@verif" % (n, stem), "uids": uids[:50],
+                                                       "summary": "%s of a calendar with %d tasks writes %d UID lines; %d UIDs are lost (first %s), %d are new (first %s)"
+                                                       % (tool, n, len(got), len(lost), lost[:1], len(new), new[:1])})
+            else:
+                part.nontrivial.add("crowd/%s/%s" % (tool, "le1024" if n <= 1024 else "gt1024"))
+    finally:
+        import shutil
+        shutil.rmtree(d, ignore_errors=True)
+
+
 def parse_dump_occ(lines):
     """tasks with fields and their first occurrences (h_strm without ser=)"""
     tasks = parse_dump(lines)
@@ -405,6 +437,8 @@ def worker(args):
     try:
         for k in range(max(nf, ns)):
             try:
+                if k < (1 if tier == "quick" else 6):
+                    crowd_case(part, rng, root)
                 if k < nf:
                     field_case(srv, part, rng)
                 if k < ns:
